@@ -39,9 +39,9 @@ def run(ctx):
                 'filter_output call; non-trivial = >=2 sources')
     ctx.assume('thresholds never equal an attained best chi^2 (per point) and are finite and non-zero', 'every record has at least one fit (a best chi^2 exists)',
                'a zero-byte output file means no records')
-    ctx.require_events('FitInfoFile.write:pre', 'split:checked')
+    ctx.require_events('split:checked', 'metadata:checked')
     ctx.require_regimes('all-good', 'all-bad', 'mixed', 'criterion:chi', 'criterion:cpd', 'names:auto', 'names:explicit', 'input:file', 'input:list',
-                        'best:nan', 'best:inf')
+                        'best:nan', 'best:inf', 'n_data=1', 'flag-4-points', 'nan-suffix', 'names:mixed')
     d = ctx.newdir('c18')
     n_models, nb = 5, 8
     names = gen.model_names(rng, n_models, 'num')
@@ -60,9 +60,13 @@ def run(ctx):
         n_src = int(rng.integers(1, 11))
         infos = []
         for i in range(n_src):
-            nfit = int(rng.integers(2, 9))
-            valid = np.array([1] * nfit + list(rng.choice([0, 2, 3, 9], nb - nfit)))
+            nfit = int(rng.integers(1, 9))
+            valid = np.array(list(rng.choice([1, 1, 1, 4], nfit)) + list(rng.choice([0, 2, 3, 9], nb - nfit)))
             rng.shuffle(valid)
+            if nfit == 1:
+                ctx.regime('n_data=1')
+            if np.any(valid == 4):
+                ctx.regime('flag-4-points')
             m0 = int(rng.integers(n_models))
             pred = np.log10(conv[m0, 0]) + float(rng.uniform(0, 3)) * k
             flux, err = gen.photometry_for(rng, valid, pred)
@@ -80,6 +84,11 @@ def run(ctx):
                 info.chi2 = np.sort(info.chi2) * 0 + np.array([1e30] * len(info.chi2))
             elif r < 0.45 and infos:
                 info.chi2 = infos[-1].chi2.copy()          # ties between sources
+            elif r < 0.55 and len(info.chi2) >= 2:
+                c2 = np.array(info.chi2, float)            # finite best fit, undefined ones at the end
+                c2[int(rng.integers(1, len(c2))):] = np.nan
+                info.chi2 = c2
+                ctx.regime('nan-suffix')
             if rng.random() < 0.3:
                 info.keep(('N', int(rng.integers(1, n_models + 1))))
             if rng.random() < 0.5:
@@ -109,7 +118,15 @@ def run(ctx):
         auto = form == 'file' and rng.random() < 0.5
         ctx.regime('input:' + form)
         ctx.regime('names:auto' if auto else 'names:explicit')
-        if auto:
+        if auto and rng.random() < 0.4:
+            ctx.regime('names:mixed')
+            if rng.random() < 0.5:
+                g, b = path + '_good', os.path.join(d, 'b_%d' % ic)
+                kw = dict(output_bad=b)
+            else:
+                g, b = os.path.join(d, 'g_%d' % ic), path + '_bad'
+                kw = dict(output_good=g)
+        elif auto:
             g, b = path + '_good', path + '_bad'
             kw = {}
         else:
@@ -126,14 +143,22 @@ def run(ctx):
             continue
         trace = list(TRACE)
         wrote = sorted(set(os.path.abspath(p) for p in tr.produced(under=d)))
-        if wrote != sorted([os.path.abspath(g), os.path.abspath(b)]):
-            ctx.violation('files:not-exactly-two', 'filter_output did not write exactly the two output files at the expected names',
-                          dict(wit, written=[os.path.basename(x) for x in wrote], expected=[os.path.basename(g), os.path.basename(b)]))
+        third = []
+        for x in wrote:
+            if x in (os.path.abspath(g), os.path.abspath(b)) or not os.path.isfile(x) or os.path.getsize(x) == 0:
+                continue
+            try:
+                third += [(os.path.basename(x), r_['source']['name']) for r_ in read_all(x)]
+            except Exception:
+                ctx.event('other-file-written')          # not a results file: not judged
+        if third:
+            ctx.violation('files:records-in-a-third-file', 'records were written to a file that is neither of the two outputs',
+                          dict(wit, third=third[:6], expected=[os.path.basename(g), os.path.basename(b)]))
             continue
         out = {}
         for label, pth in (('good', g), ('bad', b)):
             try:
-                out[label] = [] if os.path.getsize(pth) == 0 else read_all(pth)
+                out[label] = [] if (not os.path.exists(pth) or os.path.getsize(pth) == 0) else read_all(pth)
             except Exception as exc:
                 ctx.violation('output-unreadable', 'an output file cannot be read back: %r' % (exc,), dict(wit, which=label))
                 out = None
@@ -143,10 +168,6 @@ def run(ctx):
         ctx.event('split:checked')
         gn = [r['source']['name'] for r in out['good']]
         bnm = [r['source']['name'] for r in out['bad']]
-        # each write event went to exactly one of the two writers
-        tw = {os.path.abspath(g): [], os.path.abspath(b): []}
-        for p_, n_ in trace:
-            tw.setdefault(p_, []).append(n_)
         if sorted(gn + bnm) != sorted(r['source']['name'] for r in recs):
             ctx.violation('split:not-a-partition', 'the two outputs together do not contain every input source exactly once',
                           dict(wit, good=gn, bad=bnm))
@@ -161,8 +182,25 @@ def run(ctx):
                 if dd:
                     ctx.violation('split:record-altered', 'a record in an output differs from the input record: %s' % dd, dict(wit, source=r['source']['name']))
                     break
-            if trace and (tw[os.path.abspath(g)] != gn or tw[os.path.abspath(b)] != bnm):
-                ctx.violation('trace:writes-vs-files', 'write events per writer do not match what the files contain', dict(wit, trace=trace[:12]))
+            # the outputs describe the same fit set-up as the input (filters, extinction law, model directory)
+            for label, pth in (('good', g), ('bad', b)):
+                if not out[label]:
+                    continue
+                try:
+                    fm = FitInfoFile(pth, 'r')
+                    m1 = next(iter(fm)).meta
+                    fm.close()
+                    m0 = infos[0].meta
+                    same_meta = (m1.model_dir == m0.model_dir and repr(m1.filters) == repr(m0.filters) and
+                                 probe.same(m1.extinction_law.wav.to(u.micron).value, m0.extinction_law.wav.to(u.micron).value) and
+                                 probe.same(m1.extinction_law.chi.to(u.cm ** 2 / u.g).value, m0.extinction_law.chi.to(u.cm ** 2 / u.g).value))
+                except Exception as exc:
+                    ctx.violation('split:metadata-unreadable', 'the fit set-up stored with an output cannot be read: %r' % (exc,), dict(wit, which=label))
+                    break
+                ctx.event('metadata:checked')
+                if not same_meta:
+                    ctx.violation('split:metadata-altered', 'an output does not carry the fit set-up (filters, extinction law, model directory) of the input', dict(wit, which=label))
+                    break
         ctx.case(('fo', ic, ctx.shard), nontrivial=n_src >= 2, sample=dict(wit, good=gn, bad=bnm) if ic < 2 else None)
         for p_ in (path, g, b):
             if os.path.exists(p_):
